@@ -64,6 +64,24 @@ Theorem C08_waiter_after_release : forall d, H_live d -> forall s t s' ec i,
 Proof. intros d Hd. exact (waiter_after_release (cfg_repo d) (repo_checks d) (repo_good d Hd)). Qed.
 Print Assumptions C08_waiter_after_release.
 
+(** While every owner lives no Lock call ever judges the lock file stale or removes it ... *)
+Theorem C08_stale_removal_needs_dead_owner : forall d, H_live d -> forall s t ec,
+  reach (cfg_repo d) (live_ok (cfg_repo d)) init s -> cs s t <> CStale ec.
+Proof. intros d Hd. exact (stale_removal_needs_dead_owner (cfg_repo d) (repo_checks d) (repo_good d Hd)). Qed.
+Print Assumptions C08_stale_removal_needs_dead_owner.
+
+(** ... but after a holder's death the documented race exists (repaired code, heartbeats on
+    time): two waiters both judge the dead file stale; the first removes it, creates its own
+    and holds; the second's os.Remove of the NAME then removes the first one's live file, and
+    it holds too.  Mutual exclusion among the live contenders is lost after a recovery. The
+    window is the few microseconds between a waiter's read and its remove; the comment above
+    FileStorage accepts it ("imperfect mutual exclusion if locks become stale"). *)
+Theorem C08_mutex_after_crash_refuted_stale_race :
+  exists s i1 i2, run cfg_resets init stale_race_run = Some s /\
+    cs s 0%nat = CDead /\ cs s 1%nat = CHolding i1 /\ cs s 2%nat = CHolding i2 /\ i1 <> i2.
+Proof. exact mutex_after_crash_refuted_stale_race. Qed.
+Print Assumptions C08_mutex_after_crash_refuted_stale_race.
+
 Theorem C08_holder_leaves_only_by_unlock : forall c s l s' t i, step c s l = Some s' ->
   cs s t = CHolding i -> cs s' t <> CHolding i -> l = LUnlock t \/ exists p, l = LKill p.
 Proof. exact holder_leaves_only_by_unlock. Qed.
